@@ -386,11 +386,23 @@ pub fn build_real(m: &RefArchive, rng: &mut Rng) -> Result<BinArchive, String> {
     }
     rng.shuffle(&mut ops);
     let mut label_next: BTreeMap<usize, usize> = BTreeMap::new();
+    let overwrite = rng.chance(1, 4);
     for op in ops {
-        let r = match op {
+        let r: Result<(), String> = match op {
             Op::Bytes(p, l) => a.write_bytes(p, &m.data[p..p + l]).map_err(|e| e.to_string()),
-            Op::Text(k) => a.write_string(k, Some(&m.text[&k])).map_err(|e| e.to_string()),
-            Op::Ptr(k) => a.write_pointer(k, Some(m.ptrs[&k])).map_err(|e| e.to_string()),
+            // a cell may be written more than once: the LAST value counts
+            Op::Text(k) => {
+                if overwrite && k % 3 == 0 {
+                    a.write_string(k, Some("stale string to be overwritten")).map_err(|e| e.to_string())?;
+                }
+                a.write_string(k, Some(&m.text[&k])).map_err(|e| e.to_string())
+            }
+            Op::Ptr(k) => {
+                if overwrite && k % 3 != 1 {
+                    a.write_pointer(k, Some((m.ptrs[&k] + 4) % (n + 1))).map_err(|e| e.to_string())?;
+                }
+                a.write_pointer(k, Some(m.ptrs[&k])).map_err(|e| e.to_string())
+            }
             Op::CStr(k) => a.write_c_string(k, m.cstr[&k].clone()).map_err(|e| e.to_string()),
             Op::Label(k) => {
                 let i = label_next.entry(k).or_insert(0);
